@@ -16,9 +16,14 @@
 (* (parent form, child position, child form); Budget 3 = every triple in   *)
 (* both shapes (chain, fork).  Deeper trees: -simulate with a large Budget.*)
 (***************************************************************************)
-EXTENDS Grammar, Json
+EXTENDS Grammar, Json, IOUtils
 
-CONSTANTS Mode, Budget, MaxDepth, Alpha, Leaves
+\* parameters of a run, taken from the environment (one .cfg serves every run)
+Mode     == IOEnv.C14_MODE
+Budget   == atoi(IOEnv.C14_BUDGET)
+MaxDepth == atoi(IOEnv.C14_DEPTH)
+Alpha    == IOEnv.C14_ALPHA
+Leaves   == IOEnv.C14_LEAVES
 VARIABLES t, b
 
 H(ty, d) == [k |-> "hole", a |-> ty, c |-> <<>>, d |-> d]
@@ -37,8 +42,7 @@ BinSel == IF Alpha = "full" THEN BinOps
 
 LeafForms ==
   {Id0} \cup (IF Leaves = "all"
-              THEN {N("int", "1", <<>>), N("int", "0x1F", <<>>), N("float", "2.5", <<>>), N("float", "1.", <<>>),
-                    N("float", ".5", <<>>), N("str", "'s'", <<>>), N("bytes", "b's'", <<>>)}
+              THEN {N("int", "1", <<>>), N("float", "1.", <<>>), N("float", ".5", <<>>), N("str", "'s'", <<>>), N("bytes", "b's'", <<>>)}
               ELSE {})
 
 P(n)       == N("p", n, <<>>)
@@ -98,7 +102,7 @@ OpForms(e, v) ==
   \cup {N("index", "", <<e, e>>), N("dot", "f", <<e>>)}
   \cup SliceForms(e) \cup DisplayForms(e) \cup CompForms(e, v)
 
-\* loop variables / assignment targets (cost 0)
+\* loop variables / assignment targets
 VarForms ==
   IF Alpha = "full"
   THEN {Id0, N("tuple", "", <<Id0, Id0>>), N("dot", "f", <<Id0>>), N("index", "", <<Id0, Id0>>),
@@ -106,7 +110,7 @@ VarForms ==
   ELSE {Id0, N("tuple", "", <<Id0, Id0>>)}
 AugTargets == {Id0, N("dot", "f", <<Id0>>), N("index", "", <<Id0, Id0>>)}
 
-\* expressions inside statements (cost 0): enough to exercise the Expression / Test contexts
+\* expressions inside statements: enough to exercise the Expression / Test contexts
 StmtExprs ==
   IF Alpha = "full"
   THEN {Id0, N("tuple", "", <<Id0, Id0>>), N("bin", "+", <<Id0, Id0>>), N("call", "", <<Id0, Id0>>),
@@ -124,10 +128,10 @@ SimpleForms(x, tg) ==
   \cup {N("assign", op, <<g, x>>) : op \in (IF Alpha = "full" THEN AugOps ELSE {"+=", "<<="}),
                                      g \in (IF Alpha = "full" THEN AugTargets ELSE {Id0})}
   \cup (IF Alpha = "full"
-        THEN {N("load", "", <<N("str", "'m'", <<>>), N("item", "'s'", <<>>)>>),
-              N("load", "", <<N("str", "'m'", <<>>), N("alias", "w", <<N("item", "'s'", <<>>)>>)>>),
-              N("load", "", <<N("str", "\"d\"", <<>>), N("item", "'s'", <<>>), N("alias", "w", <<N("item", "\"d\"", <<>>)>>), N("item", "'m'", <<>>)>>)}
-        ELSE {N("load", "", <<N("str", "'m'", <<>>), N("item", "'s'", <<>>), N("alias", "w", <<N("item", "'s'", <<>>)>>)>>)})
+        THEN {N("load", "", <<N("str", "'m'", <<>>), N("item", "s", <<>>)>>),
+              N("load", "", <<N("str", "'m'", <<>>), N("alias", "w", <<N("item", "s", <<>>)>>)>>),
+              N("load", "", <<N("str", "\"d\"", <<>>), N("item", "s", <<>>), N("alias", "w", <<N("item", "d", <<>>)>>), N("item", "m", <<>>)>>)}
+        ELSE {N("load", "", <<N("str", "'m'", <<>>), N("item", "s", <<>>), N("alias", "w", <<N("item", "s", <<>>)>>)>>)})
 
 CompoundForms(x, v, bl) ==
        {N("def", "fn", ps \o <<bl>>) : ps \in ParamLists(x)}
@@ -153,9 +157,10 @@ Forms(h, n) ==
       bl == H("b", d - 1)
   IN CASE h.a = "e" -> {<<f, 0>> : f \in LeafForms}
                        \cup (IF n > 0 /\ d > 1 THEN {<<f, 1>> : f \in OpForms(e, v)} ELSE {})
-       [] h.a = "v" -> {<<f, 0>> : f \in VarForms}
-       [] h.a = "g" -> {<<f, 0>> : f \in VarForms}
-       [] h.a = "x" -> {<<f, 0>> : f \in StmtExprs}
+       \* the plain identifier is free; any other form is paid for like an operator node
+       [] h.a = "v" -> {<<f, IF f = Id0 THEN 0 ELSE 1>> : f \in (IF n > 0 THEN VarForms ELSE {Id0})}
+       [] h.a = "g" -> {<<f, IF f = Id0 THEN 0 ELSE 1>> : f \in (IF n > 0 THEN VarForms ELSE {Id0})}
+       [] h.a = "x" -> {<<f, IF f = Id0 THEN 0 ELSE 1>> : f \in (IF n > 0 THEN StmtExprs ELSE {Id0})}
        [] h.a = "s" -> (IF n > 0 THEN {<<f, 1>> : f \in SimpleForms(x, tg)} ELSE {})
                        \cup (IF n > 1 /\ d > 1 THEN {<<f, 1>> : f \in CompoundForms(x, v, bl)} ELSE {})
        [] h.a = "b" -> (IF n > 0 THEN {<<Blk(<<s>>), 0>>} ELSE {})
